@@ -1,6 +1,7 @@
 package main
 
 import (
+	"encoding/json"
 	"fmt"
 	"math/big"
 
@@ -64,6 +65,11 @@ func (s Scenario) info(kind string) *CaseInfo {
 		}
 	}
 	return ci
+}
+
+func (s Scenario) json() string {
+	b, _ := json.Marshal(s.info("scenario"))
+	return string(b)
 }
 
 func scenarioFromInfo(ci *CaseInfo) Scenario {
